@@ -60,6 +60,15 @@ func (s *Session) EnsureValid() error {
 		return fmt.Errorf("invalid beta-specific configuration: %w", err)
 	}
 
+	// Ensure that the merged endpoint configurations are valid. Some settings
+	// (e.g. default file modes) can only be validated in combination with the
+	// session-wide settings that they'll be used with.
+	if err := MergeConfigurations(s.Configuration, s.ConfigurationAlpha).EnsureValid(false); err != nil {
+		return fmt.Errorf("invalid merged alpha configuration: %w", err)
+	} else if err = MergeConfigurations(s.Configuration, s.ConfigurationBeta).EnsureValid(false); err != nil {
+		return fmt.Errorf("invalid merged beta configuration: %w", err)
+	}
+
 	// Validate the session name.
 	if err := selection.EnsureNameValid(s.Name); err != nil {
 		return fmt.Errorf("invalid session name: %w", err)
